@@ -16,6 +16,9 @@
 (*          (a variable, or the reused elements of a slice): accepted iff the  *)
 (*          full state of the target afterwards is Denote(document) - what a   *)
 (*          fresh decode gives - whatever the target held before (ReuseOK).    *)
+(*   Ins    the encoder's string text of a value with garbage inserted after   *)
+(*          the opening quote / in the middle / before the closing quote:      *)
+(*          accepted iff error or a value other than the original (InsertOK).  *)
 (*   Panic  has no action.                                                     *)
 (* The events are independent, so a rejected event does not stop the segment:  *)
 (* it is printed as <<"REJ", line>> and not counted as accepted.  Register i   *)
@@ -58,7 +61,14 @@ JudgeSeq ==
   /\ (E.how = "var" /\ E.step > 1) => (E.before = tgt \/ PrintT(<<"SEQBROKEN", l>>))     \* recorder consistency, not a verdict
   /\ ReuseOK(E.freshres = "ok", E.fresh, E.res = "ok", E.after)
 
+\* garbage inserted into the encoder's string text of E.val (JsonForms 5b)
+JudgeIns ==
+  LET doc == HexToBytes(E.doc) IN
+  /\ (WF(doc) = (E.gowf = 1)) \/ PrintT(<<"WFDIFF", l>>)
+  /\ IF ~InDomain(E.ty, E.val) THEN PrintT(<<"OOD", l>>) ELSE InsertOK(E.ty, E.val, doc, E.res, E.back)
+
 Judge == CASE E.k = "Reset"  -> l = seg
+           [] E.k = "Ins"    -> JudgeIns
            [] E.k = "Seq"    -> JudgeSeq
            [] E.k = "RT"     -> JudgeRT
            [] E.k = "Dec"    -> JudgeDec
